@@ -1,15 +1,55 @@
 """C17 -- see DESIGN.md section 5.  Deductive targets are added below the bounded import."""
 PROP = "C17"
 LEVEL = 'other'
-EXPLANATION = ('Deductive: HelpResolver.create_resolved_command restores the lenient-parsing setting of the resolved command on every exit, normal or exceptional; every style factory (BorderStyle.none/ascii/solid, TableStyle.borderless/compact/ascii/solid) returns a fresh object graph (style, border style, alignment list) with exactly the documented field values, stores in the prototype cache only an object it created, never hands a prototype out and changes no field of an existing one, and the canonical-prototype class invariant is preserved (class variables as heap state, copy.copy as field-wise shallow copy; an AST obligation shows that only the factories assign the cache).  Bounded: run histories on one application vs fresh ones, style construction orders, double renders, trace cache across I/O kinds.')
+EXPLANATION = ('Deductive: HelpResolver.create_resolved_command restores the lenient-parsing setting of the resolved command on every exit, normal or exceptional; every style factory (BorderStyle.none/ascii/solid, TableStyle.borderless/compact/ascii/solid) returns a fresh object graph (style, border style, alignment list) with exactly the documented field values, stores in the prototype cache only an object it created, never hands a prototype out and changes no field of an existing one, and the canonical-prototype class invariant is preserved (class variables as heap state, copy.copy as field-wise shallow copy; an AST obligation shows that only the factories assign the cache); a package-wide AST obligation shows that no module holds module- or class-level state that its code mutates, except those prototypes and the trace snippet cache.  Bounded: run histories on one application vs fresh ones, style construction orders, double renders, trace cache across I/O kinds.')
 LEVEL_NOTE = ('assumes: Command.parse does not modify the configuration; the class invariant of the prototype cache is a precondition of the factories, justified by encapsulation (fresh results + frame + the structural obligation), `cls` is taken to be the declaring class (no subclass shadows the cache); trace caches, double renders and end-to-end histories are bounded only')
 from . import resolver_contracts as rc
 from . import tablestyle_contracts as tsc
 TARGETS = [rc.M_HELP + ":HelpResolver.create_resolved_command"] + tsc.TARGETS + [tsc.sc.ANSI_FORMAT_STACK]
 
 
+# shared mutable state that exists on purpose, each covered by its own obligations
+ALLOWED_SHARED_STATE = {
+    "clikit.ui.style.border_style": ("BorderStyle._", "the prototype cache of the border styles: style-factory contracts + only_factories_assign_prototypes"),
+    "clikit.ui.components.exception_trace": ("_FRAME_SNIPPET_CACHE", "the class-level snippet cache of the trace, keyed by frame and options: C17.B.trace_io_orders, C20.B.debug_frame_snippets"),
+}
+
+
 def structural():
-    return tsc.structural("C17")
+    """besides the style prototypes, one more package-wide frame obligation: no module of clikit holds module- or class-level
+    state that its code mutates or re-binds, except the two caches listed above"""
+    import os
+    from pyvc import frontend, structural as st
+    out = tsc.structural("C17")
+    P = frontend.Program()
+    bad = []
+    n = 0
+    for dirpath, _dirs, files in os.walk(P.src):
+        for f in sorted(files):
+            if not f.endswith(".py"):
+                continue
+            mod = os.path.relpath(os.path.join(dirpath, f), os.path.dirname(P.src.rstrip("/")) if P.src.rstrip("/").endswith("clikit") else P.src)[:-3].replace(os.sep, ".")
+            if mod.endswith(".__init__"):
+                mod = mod[:-9]
+            try:
+                mi = P.module(mod)
+            except Exception:
+                continue
+            n += 1
+            for finding in st.shared_mutable_state(mi):
+                allow = ALLOWED_SHARED_STATE.get(mod)
+                if allow is not None and allow[0] in finding:
+                    continue
+                bad.append("%s: %s" % (mod, finding))
+    out.append({
+        "name": "C17.package.frame.no_other_shared_state", "kind": "frame",
+        "text": "no module of the package holds a module- or class-level object that its code mutates or re-binds (nor declares a "
+                "global), except the border-style prototypes and the trace snippet cache: nothing else can carry information from "
+                "one run or rendering to the next outside the objects handed around",
+        "status": "proved" if not bad else "failed",
+        "note": "; ".join(bad[:6]) if bad else "%d modules scanned" % n,
+    })
+    return out
 LEMMAS = []
 try:
     from .C17_bounded import bounded, BOUNDED_RULE  # noqa: F401
